@@ -138,6 +138,28 @@ def strict_diff(a, b, path="$"):
     return None
 
 
+class _Missing(object):
+    def __repr__(self):
+        return "<missing>"
+
+
+MISSING = _Missing()
+
+
+def dig(x, *path):
+    """x[path[0]][path[1]]... or MISSING (a destroyed value must be reported, not crash the check)."""
+    for k in path:
+        try:
+            x = x[k]
+        except Exception:
+            return MISSING
+    return x
+
+
+def _items(d):
+    return list(d.items()) if isinstance(d, dict) else [("<not a dict>", d)]
+
+
 def enc(v):
     """Exact, order-preserving text form of a JSON value (for replay files)."""
     return wire.dumps(v).decode("latin-1")
@@ -507,6 +529,10 @@ def check_conductor(value, old, with_model):
 
     def nodunder(stage, d):
         stats["compared"] += 1
+        if not isinstance(d, dict):
+            out.append(problem("conductor", stage, "%s is not a dict: %s" % (stage, short(d, 120)),
+                               value_wire=enc(value), old_wire=enc(old)))
+            return
         bad = [k for k in d if isinstance(k, str) and k.startswith("__")]
         if bad:
             out.append(problem("conductor", stage, "double-underscore name(s) %r in %s" % (bad, stage),
@@ -517,47 +543,47 @@ def check_conductor(value, old, with_model):
         def stored(tag):
             c = sess.impl.c
             ws = c.workflow_state
-            chk(tag + ":input.v", c.get_workflow_input()["v"])
-            chk(tag + ":initial_context.v", c.get_workflow_initial_context()["v"])
+            chk(tag + ":input.v", dig(c.get_workflow_input(), "v"))
+            chk(tag + ":initial_context.v", dig(c.get_workflow_initial_context(), "v"))
             for k in ("v", "d", "lv"):
-                chk(tag + ":ctx0." + k, ws.contexts[0][k])
-            chk(tag + ":ctx0.w", ws.contexts[0]["w"], old)
+                chk(tag + ":ctx0." + k, dig(ws.contexts, 0, k))
+            chk(tag + ":ctx0.w", dig(ws.contexts, 0, "w"), old)
             if len(ws.contexts) > 1:
                 for k in ("p", "pj", "pl", "pv", "w"):
-                    chk(tag + ":ctx1." + k, ws.contexts[1][k])
-                chk(tag + ":ctx1.all.v", ws.contexts[1]["all"]["v"])
-                chk(tag + ":ctx1.all.w", ws.contexts[1]["all"]["w"])
-                nodunder(tag + ":ctx1.all", ws.contexts[1]["all"])
+                    chk(tag + ":ctx1." + k, dig(ws.contexts, 1, k))
+                chk(tag + ":ctx1.all.v", dig(ws.contexts, 1, "all", "v"))
+                chk(tag + ":ctx1.all.w", dig(ws.contexts, 1, "all", "w"))
+                nodunder(tag + ":ctx1.all", dig(ws.contexts, 1, "all"))
             if len(ws.contexts) > 2:
-                chk(tag + ":ctx2.r", ws.contexts[2]["r"])
-                chk(tag + ":ctx2.allj.p", ws.contexts[2]["allj"]["p"])
-                nodunder(tag + ":ctx2.allj", ws.contexts[2]["allj"])
+                chk(tag + ":ctx2.r", dig(ws.contexts, 2, "r"))
+                chk(tag + ":ctx2.allj.p", dig(ws.contexts, 2, "allj", "p"))
+                nodunder(tag + ":ctx2.allj", dig(ws.contexts, 2, "allj"))
             for i, cx in enumerate(ws.contexts):
                 if i >= 1:
                     nodunder(tag + ":contexts[%d]" % i, cx)
             o = c.get_workflow_output()
             if o:
                 for k in ("o_p", "o_pj", "o_r", "o_v", "o_lit"):
-                    chk(tag + ":out." + k, o[k])
-                chk(tag + ":out.o_w", o["o_w"], w=True)
-                chk(tag + ":out.o_all.r", o["o_all"]["r"])
+                    chk(tag + ":out." + k, dig(o, k))
+                chk(tag + ":out.o_w", dig(o, "o_w"), w=True)
+                chk(tag + ":out.o_all.r", dig(o, "o_all", "r"))
                 nodunder(tag + ":output", o)
-                nodunder(tag + ":out.o_all", o["o_all"])
+                nodunder(tag + ":out.o_all", dig(o, "o_all"))
             s = c.serialize()
-            chk(tag + ":serialized.input", s["input"]["v"])
-            chk(tag + ":serialized.ctx0", s["state"]["contexts"][0]["v"])
-            if len(s["state"]["contexts"]) > 1:
-                chk(tag + ":serialized.ctx1", s["state"]["contexts"][1]["p"])
+            chk(tag + ":serialized.input", dig(s, "input", "v"))
+            chk(tag + ":serialized.ctx0", dig(s, "state", "contexts", 0, "v"))
+            if isinstance(dig(s, "state", "contexts"), list) and len(s["state"]["contexts"]) > 1:
+                chk(tag + ":serialized.ctx1", dig(s, "state", "contexts", 1, "p"))
             if s.get("output"):
-                chk(tag + ":serialized.output", s["output"]["o_r"])
+                chk(tag + ":serialized.output", dig(s, "output", "o_r"))
 
         sess.boot()
         stored("boot")
         sess.persist()
         stored("boot+persist")
         raw = sess.impl.c.get_next_tasks()
-        chk("offer1:ctx.v", raw[0]["ctx"]["v"])
-        for k, x in raw[0]["actions"][0]["input"].items():
+        chk("offer1:ctx.v", dig(raw, 0, "ctx", "v"))
+        for k, x in _items(dig(raw, 0, "actions", 0, "input")):
             if k == "nest":
                 chk("offer1:input.nest", x, {"k": [value, value]})
             else:
@@ -571,14 +597,14 @@ def check_conductor(value, old, with_model):
         stored("report1+persist")
         raw = sess.impl.c.get_next_tasks()
         for k in ("v", "p", "pj", "pl", "pv"):
-            chk("offer2:ctx." + k, raw[0]["ctx"][k])
-        chk("offer2:ctx.w", raw[0]["ctx"]["w"], w=True)
-        inp = raw[0]["actions"][0]["input"]
+            chk("offer2:ctx." + k, dig(raw, 0, "ctx", k))
+        chk("offer2:ctx.w", dig(raw, 0, "ctx", "w"), w=True)
+        inp = dig(raw, 0, "actions", 0, "input")
         for k in ("y", "yj", "yl"):
-            chk("offer2:input." + k, inp[k])
-        chk("offer2:input.w", inp["w"], w=True)
-        nodunder("offer2:input.all", inp["all"])
-        chk("offer2:input.all.p", inp["all"]["p"])
+            chk("offer2:input." + k, dig(inp, k))
+        chk("offer2:input.w", dig(inp, "w"), w=True)
+        nodunder("offer2:input.all", dig(inp, "all"))
+        chk("offer2:input.all.p", dig(inp, "all", "p"))
         sess.poll()
         sess.persist()
         sess.report(("t2", 0, None), "succeeded", copy.deepcopy(value))
@@ -904,6 +930,7 @@ def _work(job):
             res["nontrivial"] = True
     except Exception:
         res["error"] = traceback.format_exc()[-1500:]
+        # the case is regenerated from its seed on replay
     for p in res["problems"]:
         p["seed"] = seed
     return res
@@ -1001,7 +1028,19 @@ def run(ctx):
 def replay(payload):
     """Re-run the stage of a stored problem on its stored value(s); 1 if it still fails (and is not known)."""
     kind = payload.get("kind")
-    if kind is None or "value_wire" not in payload and kind != "purity":
+    if kind in ("eval", "conductor", "merge", "dunder", "purity") and "value_wire" not in payload and "seed" in payload:
+        # a case stored by its seed (harness error): regenerate it
+        r = _work((kind, payload["seed"], False))
+        if "error" in r:
+            print("violation reproduced: harness error\n" + r["error"][-800:])
+            return 1
+        bad = [p for p in r["problems"] if not p.get("known")]
+        for p in bad[:10]:
+            print("violation reproduced:", json.dumps({k: p[k] for k in ("stage", "what")}, default=str)[:900])
+        if not bad:
+            print("no violation on replay")
+        return 1 if bad else 0
+    if kind is None or ("value_wire" not in payload and kind != "purity"):
         print("replay file names a broken obligation, not a concrete input:")
         print(json.dumps(payload, indent=1, default=str)[:3000])
         return 1
